@@ -86,6 +86,9 @@ def check_one(mtj, op, relc, order=None):
             bad('frame', 'node %r changed its parent (%s -> %s)'
                 % (what, before[id(x)].data['label'], x.parent.data['label'] if x.parent else None))
     if op == 'punctuation_verylow':
+        if toks and toks[0] in moved:
+            bad('frame', 'the sentence-initial token %r has no left neighbour but changed its parent (%s -> %s)'
+                % (toks[0].data['word'], before[id(toks[0])].data['label'], toks[0].parent.data['label']))
         for i in range(1, len(toks)):
             x = toks[i]
             if x.data['word'] in PUNCT and x.parent is not None:
